@@ -277,6 +277,139 @@ def program_checks(ctx, rep):
     return len(progs), execd, ncalls
 
 
+# ---------------------------------------------------------------- histories: retrieve (fails) / repair / retrieve
+HISTORY_FORMS = ['ivar_emulate', 'class_attr_emulate', 'as_forged_call', 'as_forged_call_class_attr']
+PROBES = ['inspect.signature(target)', "getattr(target, '__signature__', None)", "hasattr(target, '__signature__')",
+          'sigtools.signature(target)']
+
+
+def build_history(form, o, i, n, names, uva, uvk, probes):
+    """A program whose callee is bound LATE (the reason forgers run lazily): the object is created and kept,
+    its signature is asked for while the callee does not exist yet (that retrieval cannot succeed), the
+    callee is then assigned, and the signature is asked for again."""
+    fwd_va = uva and has(o, 'VP')
+    fwd_vk = uvk and has(o, 'VK')
+    ca = call_args(n, names, fwd_va, fwd_vk)
+    so = mk_desc([mk_param(SELF, 'PK')] + list(o['params']), 100)
+    si = mk_desc([mk_param(SELF, 'PK')] + list(i['params']), 101)
+    head = 'import inspect\nimport sigtools\nfrom sigtools.specifiers import *\n'
+    emulate = form.endswith('_emulate')
+    da = deco_args(n, names, uva, uvk, False, emulate, "'handler'")
+    if form in ('ivar_emulate', 'class_attr_emulate'):
+        src = head + ('class K(object):\n'
+                      '    @forwards_to_method(%s)\n'
+                      '    def wrapper(%s):\n        return self.handler(%s)\n'
+                      'obj = K()\ntarget = obj.wrapper\n') % (da, params_src(so), ca)
+    else:
+        src = head + ('class K(object):\n'
+                      '    __signature__ = as_forged\n'
+                      '    @forwards_to_method(%s)\n'
+                      '    def __call__(%s):\n        return self.handler(%s)\n'
+                      'obj = K()\ntarget = obj\n') % (da, params_src(so), ca)
+    if form in ('ivar_emulate', 'as_forged_call'):
+        repair = 'def inner(%s):\n    return None\nobj.handler = inner\n' % params_src(i)
+    else:
+        repair = 'def inner(%s):\n    return None\nK.handler = inner\n' % params_src(si)
+    return {'src': src, 'probes': list(probes), 'repair': repair}
+
+
+def _shape3(sig):
+    return [(p.name, int(p.kind), p.default is not p.empty) for p in sig.parameters.values()]
+
+
+def run_history(h, allnames):
+    """-> (findings [(key, what)], sigtools signature after the repair or None, log of the early probes)"""
+    ns = {}
+    out, log = [], []
+    with warnings.catch_warnings():
+        warnings.simplefilter('ignore')
+        exec(compile(h['src'], '<c04-history>', 'exec'), ns)
+        for pr in h['probes']:
+            try:
+                log.append('%s -> %s' % (pr, eval(pr, ns)))
+            except Exception as e:  # noqa: BLE001
+                log.append('%s raised %s' % (pr, type(e).__name__))
+        exec(compile(h['repair'], '<c04-history>', 'exec'), ns)
+        target = ns['target']
+        try:
+            ssig = sigtools.signature(target)
+        except Exception as e:  # noqa: BLE001
+            return [('C04:retrieval', 'sigtools.signature(target) raised %s after the callee was assigned' % classify_exc(e))], None, log
+        try:
+            isig = inspect.signature(target)
+        except Exception as e:  # noqa: BLE001
+            return [('C04:emulate', 'inspect.signature(target) raised %s: %s although sigtools.signature(target) = %s'
+                     % (type(e).__name__, e, ssig))], ssig, log
+    if _shape3(isig) != _shape3(ssig):
+        out.append(('C04:emulate', 'inspect.signature(target) = %s differs from sigtools.signature(target) = %s' % (isig, ssig)))
+    kwp = {p.name for p in isig.parameters.values() if p.kind in (p.POSITIONAL_OR_KEYWORD, p.KEYWORD_ONLY)}
+    import itertools
+    kws = sorted(set(allnames) | set(isig.parameters) | {'z'})
+    for npos in range(0, 5):
+        for r in range(0, 3):
+            for ks in itertools.combinations(kws, r):
+                if not all(k in kwp or (k not in allnames and k not in isig.parameters) for k in ks):
+                    continue
+                try:
+                    isig.bind(*([0] * npos), **dict.fromkeys(ks, 0))
+                except TypeError:
+                    continue
+                try:
+                    target(*([0] * npos), **dict.fromkeys(ks, 0))
+                except TypeError as e:
+                    out.append(('C04:unsafe', 'inspect.signature(target) = %s accepts %d positionals + %s, but executing the call raises TypeError: %s'
+                                % (isig, npos, list(ks), e)))
+                    return out, ssig, log
+    return out, ssig, log
+
+
+def history_checks(ctx, rep):
+    rng = ctx.rng('histories')
+    U2o = universe(2, ['a', 'b'])
+    U2i = universe(2, ['c', 'd'], stars=(('args', 'kwargs'), ('va', 'vk')))
+    hs = []
+    for _ in range(600 if ctx.quick else 5000):
+        o = mk_desc(rng.choice(U2o), 100)
+        i = mk_desc(rng.choice(U2i), 101)
+        if not (has(o, 'VP') or has(o, 'VK')):
+            continue
+        inames = [p[0] for p in i['params'] if p[1] in ('PK', 'KO')]
+        n = rng.choice([0, 0, 1, 2])
+        names = rng.sample(inames, rng.randint(0, min(1, len(inames))))
+        uva = has(o, 'VP') and rng.random() < 0.85
+        uvk = has(o, 'VK') and rng.random() < 0.85
+        form = rng.choice(HISTORY_FORMS)
+        probes = [rng.choice(PROBES) for _ in range(rng.choice([0, 1, 1, 2, 3]))]
+        hs.append((form, o, i, n, names, uva, uvk, probes))
+    model = ask(['forwards %s %s %d %s 0 0 %s %s 0' % (tok_sig(o), tok_sig(i), n, tok_names(names), b(uva), b(uvk))
+                 for form, o, i, n, names, uva, uvk, probes in hs])
+    from core import parse_result
+    nh = 0
+    for (form, o, i, n, names, uva, uvk, probes), mline in zip(hs, model):
+        m = parse_result(mline)
+        if m[0] != 'ok':
+            continue
+        nh += 1
+        h = build_history(form, o, i, n, names, uva, uvk, probes)
+        allnames = sorted({name_of(q[0]) for q in o['params']} | {name_of(q[0]) for q in i['params']} | {'self'})
+        label = ('%s history: outer%s, callee%s assigned late, n=%d names=%s use_varargs=%s use_varkwargs=%s'
+                 % (form, show_sig(o), show_sig(i), n, [name_of(k) for k in names], uva, uvk))
+        try:
+            res, ssig, log = run_history(h, allnames)
+        except Exception as e:  # noqa: BLE001
+            rep.violation('C04:program', '%s: running the history raised %s: %s' % (label, type(e).__name__, e),
+                          dict(h, kind='history', allnames=allnames))
+            continue
+        if ssig is not None and shape_of(describe_sig(ssig)) != shape_of(m[1]):
+            rep.corr_break('signature after late binding vs model forwards', label, show_sig(m[1]), str(ssig))
+        for key, what in res:
+            rep.violation(key, '%s: before the callee existed: %s; after it was assigned: %s' % (label, log or ['no retrieval'], what),
+                          dict(h, kind='history', allnames=allnames))
+            break
+        rep.distinct.add(('history', form, tok_sig(o), tok_sig(i), n, tuple(names), tuple(probes)))
+    return nh
+
+
 def decide(triples):
     """forwards algebra: chain soundness / exactness on implementation output,
     and forwards == embed(outer, mask(inner))"""
@@ -356,6 +489,9 @@ def run(ctx, rep):
     rep.coverage['callables_examined'] = nexec
     rep.coverage['real_calls'] = ncalls
     rep.evaluations += nexec
+    nh = history_checks(ctx, rep)
+    rep.coverage['late_binding_histories'] = nh
+    rep.evaluations += nh
     for c, m, i in tr[:4]:
         rep.sample({'case': c.show(), 'impl': show_sig(i[1]) if i[0] == 'ok' else i[1]})
     rep.assumptions = ['hide_args / hide_kwargs declarations are not executed (their non-forwarded arguments are chosen by the wrapper body)',
@@ -368,6 +504,9 @@ def replay(ctx, data):
         c = case_from_data(r)
         res = decide(run_cases([c]))
         return res[0][2] if res else None
+    if r.get('kind') == 'history':
+        res, _, log = run_history(r, r['allnames'])
+        return ('before the callee existed: %s; after: %s' % (log, res[0][1])) if res else None
     if r.get('kind') == 'program' and 'call' in r:
         # re-run the recorded program: the labelled object's advertised signature against really
         # executing the recorded call
